@@ -1,24 +1,27 @@
 #!/bin/bash
 # tools/mut.sh <patch-file | revert:<commit>> <ID> [<ID>...]
-# Applies a property-breaking change to /repo's working tree, runs the quick checks, restores /repo.
-# Prints one line per check: "<ID> exit=<code> violations=<n>".
+# Applies a property-breaking change to a scratch worktree of /repo (outside /repo and /verif), runs the
+# checks against it (VERIF_REPO), removes the worktree. Evidence/replays of these runs go to a scratch dir.
+# Prints per check: "<ID> exit=<code> violations=<n>" and the first violation classes.
+# MUT_TESTS=1 also runs the repository's own test suite on the changed tree; MUT_TIER selects the tier.
 set -u
 cd "$(dirname "$0")/.."
 spec=$1; shift
-if [ -n "$(git -C /repo status --porcelain)" ]; then echo "refusing: /repo is not clean"; exit 2; fi
-restore() { git -C /repo checkout -- . ; git -C /repo clean -fdq -- . >/dev/null 2>&1; }
-trap restore EXIT
+wt=$(mktemp -d /tmp/mutwt.XXXXXX)
+out=$(mktemp -d /tmp/mutout.XXXXXX)
+cleanup() { git -C /repo worktree remove --force "$wt" >/dev/null 2>&1; rm -rf "$wt" "$out"; }
+trap cleanup EXIT
+git -C /repo worktree add -q --detach "$wt" HEAD || exit 2
 case "$spec" in
-  revert:*) c=${spec#revert:}; git -C /repo diff "$c^" "$c" | git -C /repo apply -R || { echo "cannot reverse-apply $c"; exit 2; } ;;
-  *) git -C /repo apply "$spec" || { echo "cannot apply $spec"; exit 2; } ;;
+  revert:*) c=${spec#revert:}; git -C /repo diff "$c^" "$c" | git -C "$wt" apply -R || { echo "cannot reverse-apply $c"; exit 2; } ;;
+  *) git -C "$wt" apply "$(readlink -f "$spec")" || { echo "cannot apply $spec"; exit 2; } ;;
 esac
 if [ "${MUT_TESTS:-0}" = 1 ]; then
-  (cd /repo && GOFLAGS=-mod=mod GOPROXY=off GOSUMDB=off go test -vet=off -count=1 ./... >/tmp/mut_tests.$$ 2>&1) && echo "suite: pass" || { echo "suite: FAIL"; tail -5 /tmp/mut_tests.$$; }
-  rm -f /tmp/mut_tests.$$
+  (cd "$wt" && GOFLAGS=-mod=mod GOPROXY=off GOSUMDB=off go test -vet=off -count=1 ./... >"$out/tests.log" 2>&1) && echo "suite: pass" || { echo "suite: FAIL"; grep -v "^ok\|no test files" "$out/tests.log" | tail -5; }
 fi
 for id in "$@"; do
-  out=$(./run.sh check "$id" "${MUT_TIER:-quick}" 2>&1); code=$?
-  n=$(echo "$out" | grep -c '^VIOLATION')
+  res=$(VERIF_REPO="$wt" VERIF_OUT="$out" ./run.sh check "$id" "${MUT_TIER:-quick}" 2>&1); code=$?
+  n=$(echo "$res" | grep -c '^VIOLATION')
   echo "$id exit=$code violations=$n"
-  echo "$out" | grep -E "entry=|^INFRA" | head -${MUT_SHOW:-3}
+  echo "$res" | grep -E "entry=|^INFRA" | head -${MUT_SHOW:-3}
 done
